@@ -260,6 +260,36 @@ pub fn run(ctx: &mut Ctx) {
     ctx.extra("small_list_value_sets", json!({"first_id": FIRST_ID, "id_gap": EXTRA, "run_length": RUNS, "length": LENS, "offset": ["0", "contiguous", "contiguous+1", "contiguous-1", "2^62"]}));
     ctx.extra("exhaustive_small_lists", json!(if ctx.quick() { "n<=2 complete; n=3 every 61st" } else { "n<=3 complete" }));
 
+    // ---- entry counts steered onto varint-width and power-of-two boundaries
+    let counts: [usize; 14] = [127, 128, 129, 255, 256, 16383, 16384, 16385, 65535, 65536, 65537, 70_000, 131_071, 131_073];
+    for (k, cnt) in counts.iter().enumerate() {
+        if ctx.mine(case) {
+            ctx.begin(case);
+            let mut rng = ctx.rng("c05.counts", k as u64);
+            let mut list = gen::gen_entries(&mut rng, *cnt, true, false);
+            while list.len() < *cnt {
+                // the generator stops early when ids run out of the domain; extend densely
+                let last = *list.last().expect("non-empty");
+                list.push(REntry {
+                    tile_id: last.tile_id + u64::from(last.run_length.max(1)),
+                    offset: last.offset + u64::from(last.length),
+                    length: 1 + (list.len() % 200) as u32,
+                    run_length: 1,
+                });
+            }
+            for codec in R::CODECS {
+                if codec == R::C_BROTLI && *cnt > 20_000 && ctx.quick() {
+                    continue; // brotli quality 11 needs seconds for these
+                }
+                check_list(ctx, &list, codec, codec == R::C_NONE, &mut rng);
+            }
+            ctx.case(entries_fp(&list) ^ 0xb0, true);
+            ctx.count("boundary_count_lists");
+            ctx.max("boundary_list_entries", list.len() as u64);
+            ctx.end(case);
+        }
+        case += 1;
+    }
     // ---- random lists
     let nrand = ctx.n(240, 3000);
     for i in 0..nrand {
